@@ -36,16 +36,44 @@ def run_harness(hb, d, seed, n, only=None, extra=()):
 
 
 def _run_harness(hb, d, seed, n, only=None, extra=()):
+    """the case indices are split into shards (index modulo m) run as parallel processes, JIT and VM processes side by
+    side; the shard outputs are concatenated (every case is independent: the program cache is reset per case)"""
+    import subprocess
     base = [hb, "-seed", str(seed), "-n", str(n)] + list(extra)
     if only:
         base += ["-only", only]
-    rc, o = c.sh(base + ["-out", os.path.join(d, "impl.jit"), "-model", os.path.join(d, "model.in")],
-                 env=c.GOENV, timeout=2400, check=False)
-    if rc != 0:
-        return False, "JIT harness process failed (rc=%d): %s" % (rc, o[-1500:])
-    rc, o = c.sh(base + ["-out", os.path.join(d, "impl.vm")], env=VM_ENV, timeout=2400, check=False)
-    if rc != 0:
-        return False, "VM harness process failed (rc=%d): %s" % (rc, o[-1500:])
+    work = (n + 300) * (20 if "all" in extra else 1)          # ~300 corpus cases; "-flags all" runs 512 option words per case
+    m = 1 if only else max(1, min(6, (c.NCPU or 2) // 3, work // 400 + 1))
+    jobs = []
+    for k in range(m):
+        sh = ["-shard", "%d/%d" % (k, m)]
+        jobs.append(("JIT", base + sh + ["-out", os.path.join(d, "shard%d.impl.jit" % k), "-model", os.path.join(d, "shard%d.model.in" % k)], c.GOENV))
+        jobs.append(("VM", base + sh + ["-out", os.path.join(d, "shard%d.impl.vm" % k)], VM_ENV))
+    procs = []
+    for who, cmd, env in jobs:
+        procs.append((who, subprocess.Popen(cmd, env=dict(env), stdout=subprocess.PIPE, stderr=subprocess.STDOUT)))
+    fail = None
+    for who, pr in procs:
+        try:
+            o, _ = pr.communicate(timeout=2400)
+        except subprocess.TimeoutExpired:
+            pr.kill()
+            o, _ = pr.communicate()
+            fail = fail or (who, -9, o)
+            continue
+        if pr.returncode != 0 and not fail:
+            fail = (who, pr.returncode, o)
+    if fail:
+        return False, "%s harness process failed (rc=%d): %s" % (fail[0], fail[1], fail[2].decode("utf-8", "replace")[-1500:])
+    for name, first_only in (("impl.jit", b"B\t"), ("impl.vm", b"B\t"), ("model.in", b"D\t")):
+        with open(os.path.join(d, name), "wb") as w:
+            for k in range(m):
+                with open(os.path.join(d, "shard%d.%s" % (k, name)), "rb") as f:
+                    for line in f:
+                        if k > 0 and line.startswith(first_only):
+                            continue
+                        w.write(line)
+                os.remove(os.path.join(d, "shard%d.%s" % (k, name)))
     return True, ""
 
 
